@@ -37,6 +37,10 @@ Z3_TIMEOUT_MS = 4000
 CVC5_TIMEOUT_MS = 30000
 
 MUTANTS = [
+    {"name": "get_fcn_param_types: the slot argument of STORE_SLOT_CANCELLED is passed as a 32-bit value", "file": "rzilcompiler/HexagonExtensions.py",
+     "old": 'return [ValueType(False, 32, VTGroup.EXTERNAL, "HexPkt *"), ValueType(False, 8)]', "new": 'return [ValueType(False, 32, VTGroup.EXTERNAL, "HexPkt *"), ValueType(False, 32)]'},
+    {"name": "get_val_type_by_fcn: get_npc yields a signed value", "file": "rzilcompiler/HexagonExtensions.py",
+     "old": '        if fcn_name == "get_npc":\n            return ValueType(False, 32)', "new": '        if fcn_name == "get_npc":\n            return ValueType(True, 32)'},
     {"name": "cast_arg_list: arguments before an external parameter are skipped too (continue -> break)", "file": "rzilcompiler/Transformer/RZILTransformer.py",
      "old": "            if p_type.group & VTGroup.EXTERNAL:\n                # Here we pass non Pures. So we can't cast them.\n                continue", "new": "            if p_type.group & VTGroup.EXTERNAL:\n                # Here we pass non Pures. So we can't cast them.\n                break"},
     {"name": "cast_arg_list: converted argument stored at position 0", "file": "rzilcompiler/Transformer/RZILTransformer.py",
@@ -417,6 +421,72 @@ def gen_callbacks(loader, check, replay_on=True):
                             check.ob("macro_expr#argument-denotes-conv_C11", f"{inst} position={k}", p.ctx.pc, ir.den(r) == c_conv_den(a0, pt))
 
 
+# ------------------------------------------------------------------------------------------ plugin calls used directly by the shortcode
+def gen_legacy_calls(loader, check, replay_on=True):
+    """c_call for the three plugin functions the shortcode names directly: result typed by the table (spec/hexagon.LEGACY_CALLS), value
+    arguments converted to the parameter type, name arguments passed through, anything else rejected"""
+    from spec import hexagon as hx
+    T = loader.load(tkit.M_T).globals["RZILTransformer"]
+    X = loader.load("rzilcompiler.HexagonExtensions")
+    check.under_contract(loader, T.methods["c_call"], T.methods["cast_sub_routine_args"], X.globals["get_fcn_param_types"],
+                         X.globals["HexagonTransformerExtension"].methods["get_val_type_by_fcn"])
+    G = loader.load("rzilcompiler.Transformer.ValueType").globals["VTGroup"]
+    CallC = irkit.C(loader, "Call")
+    for fn, (ret, params) in hx.LEGACY_CALLS.items():
+        for at in [(True, 64), (False, 8), (True, 32)]:
+            inst = f"{fn} value-arguments={tname(at)}"
+            check.instances_declared += 1
+
+            def setup(it, fn=fn, params=params, at=at):
+                t = tkit.mk_transformer(it)
+                args = [f"name{k}" if not isinstance(pt, tuple) else irkit.mk_operand(it, "Variable", at, f"a{k}") for k, pt in enumerate(params)]
+                it.ctx.mark_pre(t)
+                return {"t": t, "args": args}
+            ex = explore(loader, setup, lambda it, st, fn=fn: it.call(tkit.method(it, st["t"], "c_call"), [[fn] + list(st["args"])], {}))
+            check.absorb(ex, f"c_call {inst}")
+            if ex.paths:
+                check.instances_generated += 1
+            for p in ex.paths:
+                pc = p.ctx.pc
+                check.ob("c_call#total", inst, pc, p.outcome == "return", detail="" if p.outcome == "return" else f"raises {p.value!r}")
+                if p.outcome != "return":
+                    continue
+                r = p.value
+                call = r.fields.get("hybrid_owner") if isinstance(r, Obj) and r.cls is not CallC else r
+                ok = isinstance(call, Obj) and call.cls is CallC
+                check.ob("c_call#returns-the-call (its placeholder when it yields a value)", inst, pc, bool(ok), detail=repr(r))
+                if not ok:
+                    continue
+                vt = call.fields["value_type"]
+                if ret == "void":
+                    check.ob("c_call#result-type-from-the-table", inst, pc, bool(vt.fields["group"] & G.VOID), detail=repr(vt))
+                else:
+                    check.ob("c_call#result-type-from-the-table", inst, pc, ir.vt_of(vt) == ret and not (vt.fields["group"] & G.VOID) and ir.vt(r) == ret, detail=repr(vt))
+                ops = call.fields["ops"]
+                shape = call.fields.get("fcn_name") == fn and len(ops) == len(params)
+                check.ob("c_call#function-name-and-one-argument-per-parameter-in-order", inst, pc, shape, detail=f"{call.fields.get('fcn_name')!r} {ops!r}")
+                if not shape:
+                    continue
+                for k, pt in enumerate(params):
+                    a0, got = p.state["args"][k], ops[k]
+                    if not isinstance(pt, tuple):
+                        check.ob("c_call#name-argument-passed-through", f"{inst} position={k}", pc, got == a0, detail=repr(got))
+                        continue
+                    good = isinstance(got, Obj) and not ir.wf_problems(got) and ir.vt(got) == pt
+                    check.ob("c_call#value-argument-has-the-parameter-type", f"{inst} position={k}", pc, good, detail=repr(got))
+                    if good:
+                        check.ob("c_call#value-argument-denotes-conv_C11(argument -> parameter type)", f"{inst} position={k}", pc, ir.den(got) == c_conv_den(a0, pt))
+    for lab, items, exc in (("unknown function", ["no_such_fn", "x"], NotImplementedError), ("argument count mismatch", ["get_npc", "pkt", "extra"], ValueError),
+                            ("WRITE_PRED has no result type", ["WRITE_PRED", "a", "b"], NotImplementedError)):
+        check.instances_declared += 1
+        ex = explore(loader, lambda it: {"t": tkit.mk_transformer(it)}, lambda it, st, items=items: it.call(tkit.method(it, st["t"], "c_call"), [list(items)], {}))
+        check.absorb(ex, f"c_call {lab}")
+        if ex.paths:
+            check.instances_generated += 1
+        for p in ex.paths:
+            check.ob("c_call#rejected", lab, p.ctx.pc, p.outcome == "raise" and issubclass(p.value.cls, exc), detail=f"{p.outcome} {p.value!r}")
+
+
 # ------------------------------------------------------------------------------------------ call / definition text
 def gen_call_text(loader, check, replay_on=True):
     SR, SC = irkit.C(loader, "SubRoutine"), irkit.C(loader, "SubRoutineCall")
@@ -696,12 +766,12 @@ def replay_local_collision(a):
 
 def gen_task(loader, check, what, replay_on=True):
     {"cast_arg_list": gen_cast_arg_list, "build_arg_list": gen_build_arg_list, "callbacks": gen_callbacks, "registration": gen_registration, "call_text": gen_call_text,
-     "isolation": gen_isolation}[what](loader, check, replay_on)
+     "isolation": gen_isolation, "legacy_calls": gen_legacy_calls}[what](loader, check, replay_on)
 
 
 def generate_reduced(loader, check):
     global T8
-    for w in ("cast_arg_list", "build_arg_list", "callbacks", "registration", "call_text", "isolation"):
+    for w in ("cast_arg_list", "build_arg_list", "callbacks", "legacy_calls", "registration", "call_text", "isolation"):
         gen_task(loader, check, w, False)
 
 
@@ -716,7 +786,7 @@ def run(check: Check):
     check.assume("A-NAMES: add_op through its contract")
     check.trust("T-STR: an f-string renders a non-negative int as a non-empty string of decimal digits (CPython); used to state the nested-call "
                 "disjointness lemma over digit strings instead of str.from_int")
-    check.run_parallel("contracts.c08", "gen_task", [{"what": w} for w in ("cast_arg_list", "build_arg_list", "callbacks", "registration", "call_text", "isolation")], workers=WORKERS)
+    check.run_parallel("contracts.c08", "gen_task", [{"what": w} for w in ("cast_arg_list", "build_arg_list", "callbacks", "legacy_calls", "registration", "call_text", "isolation")], workers=WORKERS)
     run_mutants(check, MUTANTS, "contracts.c08", "generate_reduced")
     return check.finish(
         level="proof",
